@@ -500,6 +500,7 @@ private:
     uint32_t get_adjusted_inner_pdu_size() const;
     void try_parse_extensions(Memory::InputMemoryStream& stream);
     bool are_extensions_allowed() const;
+    bool is_length_field_used() const;
 
     icmp_header header_;
     uint32_t orig_timestamp_or_address_mask_;
